@@ -590,7 +590,7 @@ void op_begin(int op_index) {
   if (g.c)
     for (auto& f : g.c->faults)
       if (f.thread == st->id && f.op == op_index) {
-        if (f.kind == 1) { st->armed = true; st->fail_at = f.k; st->count_new = true; }
+        if (f.kind == 1) { st->armed = true; st->fail_at = f.k; st->count_new = (f.site == 1); }
         else if (f.kind == 2) st->buggify_at.emplace_back(f.k, f.site);
       }
   if (g.active && st->hooks_off == 0) do_point(st, K_OP, nullptr);
@@ -779,7 +779,9 @@ void __assert_fail(const char* expr, const char* file, unsigned line, const char
     longjmp(*jb, 1);
   }
   const char* base = strrchr(file, '/');
-  sim::die("assert", std::string(expr) + " @ " + (base ? base + 1 : file) + ":" + std::to_string(line) + " " + func);
+  std::string fn(func);
+  if (fn.size() > 120) fn = fn.substr(0, 120) + "...";
+  sim::die("assert", std::string(expr) + " @ " + (base ? base + 1 : file) + ":" + std::to_string(line) + " " + fn);
 }
 
 #ifdef SIM_ASAN
